@@ -878,6 +878,12 @@ def _tt_edge_symbol(repo, efi):
                         return True, order
                     if isinstance(e, ast.Name) and e.id in P:
                         return True, "<%s>" % e.id
+                    if isinstance(e, ast.Name) and e.id not in env and e.id in efi.module.constants:
+                        # a module-level table (order_to_symbol): its literal value
+                        try:
+                            return True, ast.literal_eval(efi.module.constants[e.id])
+                        except (ValueError, TypeError, SyntaxError):
+                            return False, None
                     return False, None
                 ev = Evaluator(call_hook=hook, load_hook=load)
                 try:
